@@ -323,8 +323,9 @@ func (w *c15World) campaign(scen string, state sdk.Context, blockers []c15Blocke
 			w.tr.Stats["stack-miss"] += base.miss
 		}
 		if !base.returned {
+			// a panic escaping with no injected fault: report it with the inputs the model predicts it from
 			w.tr.Count("baseline-panic:" + blk.name)
-			w.panics = append(w.panics, scen+" "+blk.name+": "+base.msg)
+			w.envLine(scen, state, blk, "1", base)
 			continue
 		}
 		for ui, u := range base.units {
